@@ -5,8 +5,9 @@ ENTRY = dict(
         title="Public functions neither modify their inputs nor share state between results",
         prop_file="Properties/C16.v",
         corr_files=["Corr/C16Corr.v"],
-        theorems=["c16_frame", "c16_inplace_only_arg", "c16_documented_shared_empty", "c16_fresh",
-                  "c16_fresh_between_results", "c16_edits_leave_inputs", "c16_reach_sound",
+        theorems=["c16_frame", "c16_inplace_only_arg", "c16_fresh",
+                  "c16_fresh_between_results", "c16_edits_leave_inputs", "c16_later_calls_partial",
+                  "c16_reach_sound", "c16_reach_complete",
                   "c16_refuted_F6", "c16_refuted_F10", "c16_refuted_F11", "c16_facts"],
         allowed_axioms=[],
         facts=["c16_copy_sites"],
@@ -32,7 +33,18 @@ ENTRY = dict(
             "only mutable Python objects are represented (circuits, instruction objects with a stable identity, bases, slot lists, "
             "non-singleton gate objects inside bases, PauliLists, result objects); Qubit/Clbit, registers, floats, singleton gates and "
             "instructions held natively by the Rust circuit data are treated as immutable / identity-free",
-            "UnitaryGate instructions in INPUT circuits are outside the generator (Qiskit's own copy shares the matrix array)",
+            "observation (outside the generator unless C16_UNITARY=1): Qiskit's own copy of an instruction shares ndarray parameters, so a "
+            "UnitaryGate in an INPUT circuit - or inside an already cached definition of a KAK-path placeholder decomposed with "
+            "map_ids=None - has its matrix shared with the result of every copying entry point",
+            "observation (ignored by the alias walk): Instruction.__deepcopy__ copies a cached definition only `if self._definition:`; an "
+            "EMPTY cached definition circuit (a placeholder half whose selected map is the empty list) is falsy and therefore shared "
+            "between a gate and its copies by Qiskit itself",
+            "observation (opt-in C16_SEPARATE_QPD=1): separate_circuit on a circuit that contains QPD gates shares their basis with the "
+            "subcircuits by the same mechanism as F6 (circuit.copy()); this call site is not in the F6 entry of KNOWN_FINDINGS.json, so "
+            "the default separate_circuit stream has no pre-placed gates",
+            "c16_later_calls_partial proves that a later call finds the same argument object graph; that `run` depends only on that "
+            "graph up to renaming of new addresses is not proved (checked on the implementation: third call + calls on new inputs)",
+            "completeness of the computed reachable sets is certified per case (observe_ok, c16_reach_complete), not proved for all fuel",
             "the theorems c16_fresh* / c16_edits_leave_inputs are about the property-satisfying model (mode Repaired); on the unchanged "
             "tree the cases of the known sharing classes F6/F10/F11 are compared with the model of the current behaviour instead "
             "(only while the class is listed as known in KNOWN_FINDINGS.json)",
